@@ -23,6 +23,12 @@ class Hist:
         self.sent = {}        # (k) -> list of packets sent by that client
         self.tags = {}
         self.alive = not self.out.startswith("crash")
+        # in one history out of five every Request Authenticator the clients choose starts with the same few octets, the last of
+        # them zero: authenticators are sixteen OCTETS, not text that ends at a NUL (taken from the configuration, not from the
+        # random stream, so that the other choices of a history stay what they were)
+        import zlib
+        hh = zlib.crc32(cfg.cfg_op().encode() if isinstance(cfg.cfg_op(), str) else cfg.cfg_op())
+        self.authpfx = (bytes([1 + (hh >> 8) % 255, 1 + (hh >> 16) % 255][: (hh >> 4) % 3]) + b"\x00") if hh % 5 == 0 else b""
 
     def tag(self, k):
         self.tags[k] = self.tags.get(k, 0) + 1
@@ -56,7 +62,7 @@ class Hist:
         rng, c = self.rng, self.cl[k]
         code = code if code is not None else rng.choice([1, 1, 1, 1, 4, 4, 12])
         user = user if user is not None else rng.choice(USERS)
-        auth = auth if auth is not None else R.rand_bytes(rng, 16)
+        auth = auth if auth is not None else (self.authpfx + R.rand_bytes(rng, 16)[len(self.authpfx):])
         attrs = [(1, user)] if (user is not False) else []
         if code == 1 and (pwd if pwd is not None else rng.random() < 0.5):
             plain = pwd if isinstance(pwd, bytes) else R.rand_bytes(rng, rng.choice([1, 8, 16, 17, 32, 128]))
@@ -407,7 +413,7 @@ def generic_history(exe, rng, idx, emph, cfg=None):
             if rng.random() < 0.5:
                 h.send("reset " + sv["name"])
             else:
-                h.send("srvstate %s %d %d" % (sv["name"], rng.choice([0, 1, 2, 2, 3, 4]), rng.choice([0, 0, 1, 5, 15, 16])))
+                h.send("srvstate %s %d %d" % (sv["name"], rng.choice([0, 1, 2, 2, 3, 4]), rng.choice([0, 0, 1, 5, 15, 16, 255])))
         else:
             h.send("pop %d" % k)
     for k in range(h.ncl):
@@ -421,7 +427,9 @@ def rewrite_history(exe, rng, idx):
     cfg = W.rand_cfg(rng, rewrites=False, nclients=1, nservers=1)
     vend = rng.choice([311, 9, 27262])
     for i in range(3):
-        cfg.rewrites.append(W.rand_rewrite(rng, "rw%d" % i, vendors=(vend,), grow=True))
+        # mostly rules for the one vendor the messages carry, some for another one (a table is kept in configuration order: rules of
+        # one vendor may stand on both sides of another vendor's)
+        cfg.rewrites.append(W.rand_rewrite(rng, "rw%d" % i, vendors=(vend, vend, {311: 9, 9: 27262, 27262: 311}[vend]), grow=True))
     h = Hist(exe, rng, cfg)
     for _ in range(rng.randrange(10, 40)):
         if h.s.dead:
@@ -516,10 +524,11 @@ def srvconn_history(exe, rng, idx):
     for c in cfg.clients:
         c["reqma"] = c["reqmap"] = False
     for s in cfg.servers:
-        s["type"] = 2
+        # TCP or TLS (PSK): tcpconnect/tcpclientrd or tlsconnect/tlsclientrd (chosen from the history's number: the random stream stays)
+        s["type"] = 1 if (idx * 7 + len(s["name"]) + cfg.servers.index(s)) % 2 == 0 else 2
         s["rc"] = 0
         if not s.get("retry_explicit"):
-            s["ri"] = W.PROTO_DEFAULTS[2][1]
+            s["ri"] = W.PROTO_DEFAULTS[s["type"]][1]
         s["ss"] = rng.randrange(4)
     cfg.opts["verifyeap"] = 0
     names = [s["name"] for s in cfg.servers]
